@@ -33,6 +33,16 @@ def gen_cases(tier, seed):
     n = {'quick': 260, 'thorough': 6000}[tier]
     for i in range(n):
         yield {'family': 'history', 'idx': i, 'seed': seed}
+    # dumps of one sequence placed in ONE flow (two dump_to_sql steps, same database file); rows vs batch size
+    combos = [(3, 1000, 'rewrite', 'append'), (9, 3, 'rewrite', 'append'), (2, 1, 'rewrite', 'update'),
+              (12, 2, 'append', 'update')]
+    if tier == 'thorough':
+        combos += [(n, b, m1, m2) for n in (1, 4, 5, 30) for b in (1, 3) for m1 in ('rewrite', 'append')
+                   for m2 in ('append', 'update')]
+    for i, (n, b, m1, m2) in enumerate(combos):
+        yield {'family': 'same_flow', 'idx': i, 'seed': seed, 'rows': n, 'batch': b, 'modes': [m1, m2]}
+    for i in range({'quick': 3, 'thorough': 12}[tier]):
+        yield {'family': 'one_resource_two_tables', 'idx': i, 'seed': seed}
 
 
 def norm_db(v, typ):
@@ -49,6 +59,20 @@ def norm_db(v, typ):
         return bool(v)
     if typ == 'date':
         return v.isoformat() if isinstance(v, datetime.date) else str(v)
+    if typ == 'duration':
+        # any text the duration can be recovered from: ISO 8601 or str(timedelta)
+        import isodate
+        import re
+        if not isinstance(v, str):
+            return v.total_seconds()
+        m = re.fullmatch(r'(?:(-?\d+) days?, )?(\d+):(\d\d):(\d\d)(?:\.(\d+))?', v)
+        if m:
+            return datetime.timedelta(days=int(m.group(1) or 0), hours=int(m.group(2)), minutes=int(m.group(3)),
+                                      seconds=int(m.group(4))).total_seconds()
+        try:
+            return isodate.parse_duration(v).total_seconds()
+        except Exception:
+            return 'UNPARSEABLE:%r' % (v,)
     return v
 
 
@@ -63,10 +87,131 @@ def norm_model(v, typ):
         return bool(v)
     if typ == 'date':
         return v.isoformat()
+    if typ == 'duration':
+        return v.total_seconds()
     return v
 
 
+def _table(dbfile, name):
+    con = sqlite3.connect(dbfile)
+    try:
+        names = [r[0] for r in con.execute("SELECT name FROM sqlite_master WHERE type='table'").fetchall()]
+        if name not in names:
+            return None
+        cur = con.execute('SELECT * FROM "%s"' % name)
+        cols = [c[0] for c in cur.description]
+        return [dict(zip(cols, r)) for r in cur.fetchall()]
+    finally:
+        con.close()
+
+
+def run_same_flow(case):
+    """Two dumps of a sequence as two steps of one flow."""
+    d = lab.df()
+    n, b, (m1, m2) = case['rows'], case['batch'], case['modes']
+    dbfile = os.path.abspath('t.db')
+    engine = 'sqlite:///' + dbfile
+    rows = [{'id': i, 'v': 'v%d' % i} for i in range(n)]
+    fields = gen.schema_fields([('id', 'integer'), ('v', 'string')])
+    counters = {'tables_compared': 0, 'flags_compared': 0}
+    viol = []
+    cfg = {'rows': n, 'batch_size': b, 'modes': [m1, m2]}
+
+    def tb(mode):
+        t = {'resource-name': 'res', 'mode': mode}
+        if mode == 'update':
+            t['update_keys'] = ['id']
+        return t
+    with boot.quiet():
+        s1 = d.dump_to_sql({'tbl': tb(m1)}, engine=engine, batch_size=b)
+        s2 = d.dump_to_sql({'tbl': tb(m2)}, engine=engine, batch_size=b)
+    out = lab.run([lab.source('res', fields, rows), s1, s2], validate=False)
+    for s_ in (s1, s2):
+        try:
+            s_.engine.dispose()
+        except Exception:
+            pass
+    expected = rows + rows if m2 == 'append' else rows
+    one_batch = n <= b + 1
+    if not out.ok:
+        locked = 'database is locked' in out.errstr()
+        viol.append({'kind': 'same_flow_dump_failed',
+                     # the second step writes while the first one's transaction is open: after a full batch, or at once when it updates
+                     'mech': 'sqlite-locked-by-upstream-dump-step' if (locked and (not one_batch or m2 == 'update'))
+                     else 'same_flow/failed',
+                     'msg': '%r: two dump_to_sql steps in one flow failed: %s' % (cfg, out.errstr()[:300]), 'config': cfg})
+    else:
+        got = _table(dbfile, 'tbl')
+        counters['tables_compared'] += 1
+        key = lambda r: (r['id'], r['v'])
+        if got is None or sorted(map(key, got)) != sorted(map(key, expected)):
+            viol.append({'kind': 'same_flow_table_state', 'mech': 'same_flow/%s>%s' % (m1, m2),
+                         'msg': '%r: table holds %r rows, expected %d' % (cfg, None if got is None else len(got), len(expected)),
+                         'config': cfg})
+        counters['flags_compared'] += 1   # no flags in this family: the counter says the family ran
+    return dict(nontrivial=True, violations=viol, counters=counters,
+                cov={'mode_seq': {'same_flow:%s>%s' % (m1, m2): 1},
+                     'config': {'same_flow/%s' % ('one_batch' if one_batch else 'several_batches'): 1}},
+                sample={'config': cfg})
+
+
+def run_two_tables(case):
+    """tables={'current': {res, rewrite}, 'history': {res, append}}: both are target tables of the call - either both reflect
+    the stream, or the step refuses the configuration before anything is written."""
+    rng = boot.rng(case['seed'], 'C20', 'two_tables', case['idx'])
+    d = lab.df()
+    dbfile = os.path.abspath('t.db')
+    engine = 'sqlite:///' + dbfile
+    fields = gen.schema_fields([('id', 'integer'), ('v', 'string')])
+    counters = {'tables_compared': 0, 'flags_compared': 1}
+    viol = []
+    hist = []
+    ndumps = rng.randint(1, 3)
+    cfg = {'dumps': ndumps}
+    for di in range(ndumps):
+        rows = [{'id': rng.randint(0, 9), 'v': 'd%d-%d' % (di, i)} for i in range(rng.choice([1, 2, 4]))]
+        hist.extend(rows)
+        try:
+            with boot.quiet():
+                step = d.dump_to_sql({'current': {'resource-name': 'res', 'mode': 'rewrite'},
+                                      'history': {'resource-name': 'res', 'mode': 'append'}}, engine=engine)
+        except ValueError:
+            # refused up front: nothing written, nothing claimed
+            if _table(dbfile, 'current') is not None or _table(dbfile, 'history') is not None:
+                viol.append({'kind': 'refused_but_written', 'mech': 'refused_but_written',
+                             'msg': 'the step refused the tables but the database has them', 'config': cfg})
+            return dict(nontrivial=True, violations=viol, counters={'tables_compared': 1, 'flags_compared': 1},
+                        cov={'mode_seq': {'two_tables_refused': 1}, 'config': {'one_resource_two_tables/refused': 1}},
+                        sample={'config': cfg})
+        out = lab.run([lab.source('res', fields, rows), step], validate=False)
+        try:
+            step.engine.dispose()
+        except Exception:
+            pass
+        if not out.ok:
+            viol.append({'kind': 'two_tables_failed', 'mech': 'two_tables_failed',
+                         'msg': 'dump %d failed: %s' % (di, out.errstr()[:300]), 'config': cfg})
+            break
+        key = lambda r: (r['id'], r['v'])
+        cur, his = _table(dbfile, 'current'), _table(dbfile, 'history')
+        counters['tables_compared'] += 2
+        if cur is None or sorted(map(key, cur)) != sorted(map(key, rows)) or \
+                his is None or sorted(map(key, his)) != sorted(map(key, hist)):
+            viol.append({'kind': 'two_tables_state', 'mech': 'one-resource-two-tables',
+                         'msg': 'dump %d: table current %s, table history %s; expected %d and %d rows'
+                         % (di, 'missing' if cur is None else '%d rows' % len(cur),
+                            'missing' if his is None else '%d rows' % len(his), len(rows), len(hist)), 'config': cfg})
+            break
+    return dict(nontrivial=True, violations=viol, counters=counters,
+                cov={'mode_seq': {'two_tables': 1}, 'config': {'one_resource_two_tables/written': 1}},
+                sample={'config': cfg})
+
+
 def run_case(case):
+    if case['family'] == 'same_flow':
+        return run_same_flow(case)
+    if case['family'] == 'one_resource_two_tables':
+        return run_two_tables(case)
     rng = boot.rng(case['seed'], 'C20', case['idx'])
     d = lab.df()
     counters = {'tables_compared': 0, 'flags_compared': 0}
@@ -79,6 +224,9 @@ def run_case(case):
         fields.append(('arr', 'array'))
     if rng.random() < 0.5:
         fields.append(('obj', 'object'))
+    if boot.rng(case['seed'], 'C20', 'dur', case['idx']).random() < 0.3:
+        # a type the SQL mapper has no column type for (stored as its Table Schema text form)
+        fields.append(('dur', 'duration'))
     typ = dict(fields)
     r4 = boot.rng(case['seed'], 'C20', 'round4', case['idx'])
     constrained = r4.random() < 0.3        # field constraints that the rows satisfy (validated by the dumper anyway)
@@ -160,6 +308,8 @@ def run_case(case):
                 r['arr'] = rng.choice([[1, 2], ['a', {'b': None}], [], None])
             if 'obj' in typ:
                 r['obj'] = rng.choice([{'a': 1}, {'ż': [1, 2]}, {}, None])
+            if 'dur' in typ:
+                r['dur'] = rng.choice([datetime.timedelta(days=1, hours=2), datetime.timedelta(seconds=90), None])
             rows.append(r)
         modes.append(mode)
         cfg['dumps'].append({'mode': mode, 'rows': len(rows)})
